@@ -2,47 +2,25 @@
    tying model and checker, Prop-level readings of the checker, witnesses. *)
 From RV Require Import Namespace.Model Namespace.Dict Namespace.StoreInv Namespace.Proofs.
 
-Lemma until_sub_noocc : forall s pat, occurs pat s = false -> until_sub s pat = s.
+(* split_uri(uri)[0] + split_uri(uri)[1] == uri, whatever unicodedata.category says *)
+Lemma split_uri_exact cat strict u : exact (split_uri cat strict) u.
 Proof.
-  induction s as [|c r IH]; intros pat; cbn [occurs until_sub]; auto.
-  rewrite orb_false_iff. intros [H1 H2]. rewrite H1. f_equal. auto.
-Qed.
-
-(* split_uri(uri)[0] + split_uri(uri)[1] == uri, whatever unicodedata.category says,
-   unless the IRI starts with the XML namespace and contains it again *)
-Lemma split_uri_exact cat strict u : xml_twice u = false -> exact (split_uri cat strict) u.
-Proof.
-  intros Hx ns ln. unfold split_uri. unfold xml_twice in Hx.
+  intros ns ln. unfold split_uri.
   destruct (starts_with u XMLNS) eqn:E.
-  - cbn [andb] in Hx. intros X.
+  - intros X.
     assert (Hn : ns = XMLNS) by congruence.
-    assert (Hl : ln = until_sub (skipn (length XMLNS) u) XMLNS) by congruence. subst ns ln. clear X.
-    rewrite (until_sub_noocc _ _ Hx). now apply starts_with_app.
+    assert (Hl : ln = skipn (length XMLNS) u) by congruence. subst ns ln. clear X.
+    now apply starts_with_app.
   - destruct (first_bad cat (rev u) 0) as [i|]; [|discriminate].
     destruct (first_start cat strict u _) as [p|]; [|discriminate].
     destruct (firstn p u) as [|c r] eqn:F; [discriminate|].
     intros X; inversion X; subst. rewrite <- F. apply firstn_skipn.
 Qed.
 
-Lemma kf0 c : kf c = 0%N ->
-  bad (model_final c) = false /\
-  forall o, In o (c_ops c) -> op_exact (c_split c) (c_split_s c) o.
+Theorem spec_ok_model c : spec_ok c (model_obs c) = true.
 Proof.
-  unfold kf. destruct (bad (model_final c)); [discriminate|].
-  destruct (existsb _ (c_ops c)) eqn:E; [discriminate|]. intros _. split; [reflexivity|].
-  intros o Ho u Hu.
-  assert (Hx : xml_twice u = false).
-  { destruct (xml_twice u) eqn:Ex; auto.
-    assert (existsb (fun o => match op_iri o with Some u => xml_twice u | None => false end) (c_ops c) = true).
-    { apply existsb_exists. exists o. split; auto. now rewrite Hu. }
-    congruence. }
-  split; now apply split_uri_exact.
-Qed.
-
-Theorem spec_ok_model c : kf c = 0%N -> spec_ok c (model_obs c) = true.
-Proof.
-  intros H. destruct (kf0 c H) as [Hb Hx]. unfold spec_ok, model_obs.
-  apply m_run_ok; auto. apply good_init.
+  unfold spec_ok, model_obs. apply m_run_ok; [apply good_init|].
+  intros o _ u _. split; apply split_uri_exact.
 Qed.
 
 (* ---------------------------------------------------------------- *)
@@ -91,49 +69,47 @@ Section States.
   Variables (split split_s : str -> option (str * str)) (ncname : str -> bool).
   Local Notation final := (m_final split split_s ncname m_init).
 
-  Lemma bijection ops : bad (final ops) = false ->
+  Lemma final_good ops : good split split_s (final ops).
+  Proof. apply m_final_good, good_init. Qed.
+
+  Lemma bijection ops :
     let s := final ops in
     NoDup (map fst (p2n s)) /\ NoDup (map snd (p2n s)) /\ NoDup (map fst (n2p s)) /\
     (forall p n, In (p, n) (p2n s) <-> dget (p2n s) p = Some n) /\
     (forall p n, dget (p2n s) p = Some n <-> dget (n2p s) n = Some p).
-  Proof.
-    intros Hb. apply bij_ok_reading. apply bij_ok_of_bij.
-    now apply (m_final_good split split_s ncname ops m_init (good_init split split_s)).
-  Qed.
+  Proof. apply bij_ok_reading, bij_ok_of_bij. apply final_good. Qed.
 
-  Lemma qname_bound_now ops u gen s' p ns nm : bad (final ops) = false ->
+  Lemma qname_bound_now ops u gen s' p ns nm :
     m_compute split (final ops) u gen = (s', inl (p, ns, nm)) ->
     dget (p2n s') p = Some ns /\ dget (n2p s') ns = Some p /\ (exact split u -> ns ++ nm = u).
   Proof.
-    intros Hb E.
-    pose proof (m_final_good split split_s ncname ops m_init (good_init split split_s) Hb) as Hg.
-    destruct (m_compute_good split split_s (final ops) u gen Hg) as (G & _ & Q).
+    intros E. pose proof (final_good ops) as Hg.
+    destruct (m_compute_good split split_s (final ops) u gen Hg) as (G & Q).
     rewrite E in G, Q. cbn [fst snd] in *.
     destruct (Q _ eq_refl) as [A B]. cbn [fst snd] in *. split; [exact A|]. split; [|exact B].
     destruct G as [(_ & _ & H) _]. now apply H.
   Qed.
 
-  Lemma strict_bound_now ops u gen s' p ns nm : bad (final ops) = false ->
+  Lemma strict_bound_now ops u gen s' p ns nm :
     m_compute_strict split split_s ncname (final ops) u gen = (s', inl (p, ns, nm)) ->
     dget (p2n s') p = Some ns /\ dget (n2p s') ns = Some p
     /\ (exact split u -> exact split_s u -> ns ++ nm = u).
   Proof.
-    intros Hb E.
-    pose proof (m_final_good split split_s ncname ops m_init (good_init split split_s) Hb) as Hg.
-    destruct (m_compute_strict_good split split_s ncname (final ops) u gen Hg) as (G & _ & Q).
+    intros E. pose proof (final_good ops) as Hg.
+    destruct (m_compute_strict_good split split_s ncname (final ops) u gen Hg) as (G & Q).
     rewrite E in G, Q. cbn [fst snd] in *.
     destruct (Q _ eq_refl) as [A B]. cbn [fst snd] in *. split; [exact A|]. split; [|tauto].
     destruct G as [(_ & _ & H) _]. now apply H.
   Qed.
 
-  Lemma qname_expands ops u gen s' p ns nm : bad (final ops) = false -> exact split u ->
+  Lemma qname_expands ops u gen s' p ns nm : exact split u ->
     m_compute split (final ops) u gen = (s', inl (p, ns, nm)) ->
     has_colon p = false ->
     m_expand s' (curie_str (p, ns, nm)) = inl u /\
     (p <> [] -> m_expand s' (qname_str (p, ns, nm)) = inl u) /\
     (p = [] -> qname_str (p, ns, nm) = nm /\ dget (p2n s') [] = Some ns /\ ns ++ nm = u).
   Proof.
-    intros Hb Hx E Hc. destruct (qname_bound_now ops u gen s' p ns nm Hb E) as (A & _ & B).
+    intros Hx E Hc. destruct (qname_bound_now ops u gen s' p ns nm E) as (A & _ & B).
     specialize (B Hx).
     assert (C : m_expand s' (join_colon p nm) = inl u).
     { unfold m_expand, join_colon. rewrite (split_colon_join p nm Hc), A. now rewrite B. }
@@ -144,32 +120,24 @@ Section States.
 End States.
 
 (* ---------------------------------------------------------------- *)
-(* witnesses *)
-Definition w_split := split_uri (fun c => if (N.leb 97 c && N.leb c 122)%bool then 1%N else 0%N) false.
-
-(* F6b: bind(a, h:e/); bind(b, h:e/a#); bind(a, h:e/a#, override=False, replace=True) *)
+(* the historical code (before the "fix:" commits for F6b and F6c) *)
 Definition w_e : str := [104; 58; 101; 47]%N.
 Definition w_ea : str := [104; 58; 101; 47; 97; 35]%N.
-Definition w_f6b : list op :=
-  [OBind (Some [97%N]) w_e true false; OBind (Some [98%N]) w_ea true false;
-   OBind (Some [97%N]) w_ea false true].
 
-Lemma f6b_witness :
-  let s := m_final w_split w_split (fun _ => true) m_init w_f6b in
-  bad s = true /\ ~ bij s /\
-  (* and then qname(h:e/a#x) names prefix b, which namespace() maps to h:e/ *)
-  exists s' p ns nm, m_compute w_split s (w_ea ++ [120%N]) true = (s', inl (p, ns, nm))
-    /\ dget (p2n s') p <> Some ns.
+(* store.bind(a, h:e/); store.bind(b, h:e/a#); store.bind(a, h:e/a#, override=False) *)
+Lemma old_store_bind_witness :
+  let s1 := fst (store_bind m_init [97%N] w_e true) in
+  let s2 := fst (store_bind s1 [98%N] w_ea true) in
+  bij s2 /\ ~ bij (store_bind_old_noov s2 [97%N] w_ea).
 Proof.
-  split; [vm_compute; reflexivity|]. split.
+  split.
+  - apply store_bind_good. apply store_bind_good.
+    split; [constructor|split; [constructor|]]. intros p n; simpl; split; discriminate.
   - intros H. apply bij_ok_of_bij in H. vm_compute in H. discriminate.
-  - eexists. eexists. eexists. eexists. split; [vm_compute; reflexivity|]. vm_compute. discriminate.
 Qed.
 
-(* F6c *)
-Lemma f6c_witness :
-  exists u ns ln, w_split u = Some (ns, ln) /\ ns ++ ln <> u.
+Lemma old_xml_split_witness :
+  exists u, starts_with u XMLNS = true /\ XMLNS ++ xml_local_old u <> u.
 Proof.
-  exists (XMLNS ++ [97%N] ++ XMLNS ++ [98%N]). eexists. eexists.
-  split; [vm_compute; reflexivity|]. vm_compute. discriminate.
+  exists (XMLNS ++ [97%N] ++ XMLNS ++ [98%N]). split; [vm_compute; reflexivity|]. vm_compute. discriminate.
 Qed.
